@@ -13,11 +13,13 @@ pub struct Unit {
 
 impl Unit {
     pub fn new() -> Self {
-        Unit { em: Emit::new(), cov: Coverage::default(), violations: vec![] }
+        let mut em = Emit::new();
+        em.qa(&format!("geom {HUGE_ORDER} {TREE_HUGE}"), "ok");
+        Unit { em, cov: Coverage::default(), violations: vec![] }
     }
     fn viol(&mut self, prop: &'static str, msg: String) {
         if self.violations.len() < 50 {
-            self.violations.push(Violation { prop, msg, line: self.em.nlines });
+            self.violations.push(Violation { prop, msg, line: self.em.nlines + 1 });
         }
     }
 
@@ -104,5 +106,200 @@ impl Unit {
                 self.fza_case(v, order);
             }
         }
+    }
+
+    // ---------------------------------------------------------------- C16: SortedBuffer
+    fn sbuf_run<const N: usize>(keys: &[u8]) -> Vec<(u8, usize)> {
+        use llfree::util::{OrdBy, SortedBuffer};
+        let mut b = SortedBuffer::<N, OrdBy<u8, usize>>::new();
+        for (i, k) in keys.iter().enumerate() {
+            b.add(OrdBy(*k, i));
+        }
+        b.iter().map(|OrdBy(k, i)| (*k, *i)).collect()
+    }
+    pub fn sbuf_case(&mut self, n: usize, keys: &[u8]) {
+        let r = guarded(|| match n {
+            0 => Self::sbuf_run::<0>(keys),
+            1 => Self::sbuf_run::<1>(keys),
+            2 => Self::sbuf_run::<2>(keys),
+            3 => Self::sbuf_run::<3>(keys),
+            4 => Self::sbuf_run::<4>(keys),
+            5 => Self::sbuf_run::<5>(keys),
+            6 => Self::sbuf_run::<6>(keys),
+            7 => Self::sbuf_run::<7>(keys),
+            _ => Self::sbuf_run::<8>(keys),
+        });
+        let q = format!("sbuf {n} {}", keys.iter().map(|k| k.to_string()).collect::<Vec<_>>().join(" "));
+        self.cov.oracle("C16");
+        let a = match r {
+            Ok(v) => {
+                let mut want: Vec<u8> = keys.to_vec();
+                want.sort();
+                let want: Vec<u8> = want[want.len() - n.min(want.len())..].to_vec();
+                let got: Vec<u8> = v.iter().map(|x| x.0).collect();
+                if got != want {
+                    self.viol("C16", format!("SortedBuffer<{n}> after inserting {keys:?} holds {got:?}, the {n} greatest in ascending order are {want:?}"));
+                }
+                self.cov.hit("sbuf", "ok", &format!("n{n} len{} kept{}", keys.len().min(9), got.len()));
+                format!("kept {}", v.iter().map(|(k, i)| format!("{k}:{i}")).collect::<Vec<_>>().join(" ")).trim_end().to_string()
+            }
+            Err(p) => {
+                self.viol("C16", format!("SortedBuffer<{n}>::add panicked: {p} ({keys:?})"));
+                format!("panic {p}")
+            }
+        };
+        self.em.qa(&q, &a);
+    }
+    pub fn sbuf(&mut self, rng: &mut Rng, n: usize, exhaustive_len: usize) {
+        // bounded-exhaustive: all sequences up to `exhaustive_len` over 4 ratings, capacities 0..=8
+        for cap in 0..=8usize {
+            for len in 0..=exhaustive_len {
+                let total = 4usize.pow(len as u32);
+                for code in 0..total {
+                    let keys: Vec<u8> = (0..len).map(|i| ((code / 4usize.pow(i as u32)) % 4) as u8).collect();
+                    self.sbuf_case(cap, &keys);
+                }
+            }
+        }
+        for _ in 0..n {
+            let cap = rng.below(9);
+            let len = rng.below(40);
+            let small = rng.chance(1, 2);
+            let dom = 1 + rng.below(if small { 4 } else { 200 });
+            let keys: Vec<u8> = (0..len).map(|_| rng.below(dom) as u8).collect();
+            self.sbuf_case(cap, &keys);
+        }
+    }
+
+    // ---------------------------------------------------------------- C16: search_best
+    pub fn sbest(&mut self, rng: &mut Rng, n: usize) {
+        for _ in 0..n {
+            let nt = 1 + rng.below(24);
+            let mut tw = vec![];
+            for _ in 0..nt {
+                let free = match rng.below(6) {
+                    0 => 0,
+                    1 => rng.below(TREE_FRAMES / 64 + 1),
+                    2 => TREE_FRAMES / 64 + rng.below(TREE_FRAMES / 2),
+                    3 => TREE_FRAMES / 2 + rng.below(TREE_FRAMES / 2),
+                    4 => TREE_FRAMES,
+                    _ => rng.below(TREE_FRAMES + 1),
+                };
+                tw.push((free as u32) | ((rng.chance(1, 5) as u32) << 28) | ((rng.below(3) as u32) << 29));
+            }
+            let cls = rng.below(3) as u8;
+            let order = *rng.pick(&[0usize, 0, 3, HUGE_ORDER, TREE_ORDER]);
+            let variant = rng.below(3);
+            let start = rng.below(nt);
+            let (offset, len) = match rng.below(3) {
+                0 => (0, nt),
+                1 => (1, (nt / 16).max(4)),
+                _ => (rng.below(2), rng.below(nt + 3)),
+            };
+            let cap = *rng.pick(&[1usize, 3, 8]);
+            self.sbest_case(cap, start, offset, len, cls, order, variant, &tw);
+        }
+    }
+    #[allow(clippy::too_many_arguments)]
+    pub fn sbest_case(&mut self, cap: usize, start: usize, offset: usize, len: usize, cls: u8, order: usize, variant: usize, tw: &[u32]) {
+        use std::cell::RefCell;
+        {
+            let nt = tw.len();
+            let cfg = Config { frames: nt * TREE_FRAMES, classes: vec![(0, 1), (1, 1), (2, 1)], default: 0, pol: Pol::Zeroed };
+            let bufs = Bufs::for_cfg(&cfg);
+            for (t, w) in tw.iter().enumerate() {
+                bufs.trees.slice()[t * 4..t * 4 + 4].copy_from_slice(&w.to_le_bytes());
+            }
+            let inst = match crate::engine::Inst::create(&cfg, Init::None, bufs) {
+                Ok(Ok(i)) => i,
+                _ => return,
+            };
+            let pol = cfg.pol.func();
+            let rate = move |t: Class, f: usize| -> Policy {
+                let base = if f >= (1 << order) { pol(Class(cls), t, f) } else { Policy::Invalid };
+                match variant {
+                    0 => base,
+                    1 => match base {
+                        p @ Policy::Match(_) => p,
+                        p @ Policy::Demote if f == TREE_FRAMES => p,
+                        _ => Policy::Invalid,
+                    },
+                    _ => match base {
+                        Policy::Match(_) => Policy::Match(u8::MAX),
+                        Policy::Demote if f == TREE_FRAMES => Policy::Match(u8::MAX),
+                        p => p,
+                    },
+                }
+            };
+            let log = RefCell::new(vec![]);
+            let access = |i: TreeId| -> Result<()> {
+                log.borrow_mut().push(i.0);
+                Err(Error::Memory)
+            };
+            let r = guarded(|| match cap {
+                1 => inst.alloc.trees.search_best::<1, ()>(TreeId(start), offset, len, rate, access),
+                3 => inst.alloc.trees.search_best::<3, ()>(TreeId(start), offset, len, rate, access),
+                _ => inst.alloc.trees.search_best::<8, ()>(TreeId(start), offset, len, rate, access),
+            });
+            let accessed = log.borrow().clone();
+            // oracle: perfect matches in scan order, then the `cap` best remaining, best first
+            self.cov.oracle("C16");
+            let mut perfect = vec![];
+            let mut rest: Vec<((Policy, bool), usize)> = vec![];
+            for i in offset..len {
+                let off = if i % 2 == 0 { (i / 2) as isize } else { -(i.div_ceil(2) as isize) };
+                let idx = ((start + nt) as isize + off) as usize % nt;
+                let w = tw[idx];
+                let (free, reserved, class) = ((w & 0xfff_ffff) as usize, (w >> 28) & 1 == 1, (w >> 29) as u8);
+                if reserved {
+                    continue;
+                }
+                match rate(Class(class), free) {
+                    Policy::Match(u8::MAX) => perfect.push(idx),
+                    Policy::Invalid => {}
+                    p => rest.push(((p, free == TREE_FRAMES), idx)),
+                }
+            }
+            let mut keys: Vec<(Policy, bool)> = rest.iter().map(|r| r.0).collect();
+            keys.sort();
+            keys.reverse();
+            keys.truncate(cap);
+            let tail = &accessed[perfect.len().min(accessed.len())..];
+            let tail_keys: Vec<(Policy, bool)> =
+                tail.iter().map(|i| rest.iter().find(|r| r.1 == *i).map(|r| r.0).unwrap_or((Policy::Invalid, false))).collect();
+            if r.is_ok() && (accessed.len() < perfect.len() || accessed[..perfect.len()] != perfect[..] || tail_keys != keys) {
+                self.viol("C16", format!("search_best<{cap}>(start {start}, {offset}..{len}) over trees {tw:x?} (class {cls}, order {order}, variant {variant}) accessed {accessed:?}; expected perfect matches {perfect:?} then ratings {keys:?}, got ratings {tail_keys:?}"));
+            }
+            self.cov.hit("sbest", if r.is_ok() { "ok" } else { "panic" }, &format!("cap{cap} v{variant} p{} r{}", perfect.len().min(3), rest.len().min(10)));
+            let q = format!(
+                "sbest {cap} {start} {offset} {len} {cls} {order} {variant} | {}",
+                tw.iter().map(|w| format!("{w:x}")).collect::<Vec<_>>().join(" ")
+            );
+            let a = match r {
+                Ok(_) => format!("accessed {}", accessed.iter().map(|i| i.to_string()).collect::<Vec<_>>().join(" ")),
+                Err(p) => format!("panic {p}"),
+            };
+            self.em.qa(&q, a.trim_end());
+        }
+    }
+
+    /// execute one unit request line (replay); None = not a unit request
+    pub fn exec_line(&mut self, line: &str) -> Option<String> {
+        let ws: Vec<&str> = line.split_whitespace().collect();
+        let before = self.em.exp.len();
+        match ws.as_slice() {
+            ["fza", v, o] => self.fza_case(u64::from_str_radix(v, 16).ok()?, o.parse().ok()?),
+            ["sbuf", n, keys @ ..] => {
+                let keys: Vec<u8> = keys.iter().filter_map(|k| k.parse().ok()).collect();
+                self.sbuf_case(n.parse().ok()?, &keys)
+            }
+            ["sbest", cap, start, offset, len, cls, order, variant, "|", tw @ ..] => {
+                let tw: Vec<u32> = tw.iter().filter_map(|w| u32::from_str_radix(w, 16).ok()).collect();
+                self.sbest_case(cap.parse().ok()?, start.parse().ok()?, offset.parse().ok()?, len.parse().ok()?,
+                    cls.parse().ok()?, order.parse().ok()?, variant.parse().ok()?, &tw)
+            }
+            _ => return None,
+        }
+        Some(self.em.exp[before..].trim_end().to_string())
     }
 }
